@@ -305,6 +305,15 @@ def run(ctx):
                 grows.setdefault(fld, s)
             if re.search(SHRINK, s.callee):
                 shrinks.setdefault(fld, s)
+            # the trim in a helper of the crate (`keep_tail(&mut self.output_text, n)`): a callee that shrinks or reassigns the
+            # parameter this field is handed to
+            H4 = P.fns.get(s.callee or '')
+            if H4 is not None and H4.crate == 'rip_tui':
+                k4 = 1      # s.args[0] is the field: parameter 1 of the callee
+                shr4 = any(re.search(SHRINK, x.callee) and x.args and H4.root_local(x.args[0], through_calls=(r'::deref_mut$', r'::deref$', r'::as_mut$')) == k4 for x in H4.sites())
+                asg4 = any(st4.get('d', {}).get('l') == k4 and st4['d'].get('p') == ['*'] and 'rv' in st4 for b4 in H4.reachable() for st4 in H4.blocks[b4]['s'])
+                if shr4 or asg4:
+                    shrinks.setdefault(fld, s)
         for bi in f.reachable():
             for st in f.blocks[bi]['s']:
                 d = st.get('d')
